@@ -154,6 +154,10 @@ class RefState:
         ]
         return rest or list(ops)
 
+    def f_custom_reserve_machine0(self, ops):
+        # hides every operation that could run on machine 0; may be empty
+        return [(j, p) for (j, p) in ops if 0 not in self.m[j][p]]
+
     def f_custom_identity(self, ops):
         return list(ops)
 
